@@ -417,3 +417,104 @@ def build_jobs(prop, tier):
     if prop in ("C07", "C08", "C15", "C16"):
         return par_jobs(prop, tier)
     return _old_build_jobs(prop, tier)
+
+
+# ------------------------------------------------------------------------------------------
+# writers, iterators, line endings
+
+class SimpleTvJob:
+    """one harness subcommand writing one ndjson file, validated by one trace spec"""
+
+    def __init__(self, name, sub, spec, tier):
+        self.name, self.sub, self.spec, self.tier = name, sub, spec, tier
+
+    def run(self, wd):
+        t0 = time.time()
+        op = os.path.join(wd, self.name + ".ndjson")
+        args = [self.sub, "--out", op, "--seed", str(vlib.seed())]
+        if self.tier == "thorough":
+            args.append("--thorough")
+        st = vlib.run_harness(args)
+        tv = vlib.trace_validate(self.spec, [op], wd)
+        mism = []
+        for m in tv["mismatches"]:
+            line = json.loads(vlib.shard_line(m["shard"], m["run"]))
+            small = {k: v for k, v in line.items() if k in ("ev", "head", "seq", "qual", "input", "cap", "kf", "kb", "fmt", "wrap", "recs")}
+            mism.append({"props": m["props"], "why": m["why"], "kind": m["kind"], "fmt": line.get("fmt"), "op": line.get("ev"), "res_kind": None,
+                         "case": {"event": small}, "job": self.name})
+        sample = None
+        try:
+            sample = json.loads(vlib.shard_line(op, 1))
+            for k in list(sample.keys()):
+                if isinstance(sample[k], list) and len(json.dumps(sample[k])) > 300:
+                    sample[k] = "... (%d entries)" % len(sample[k])
+        except Exception:
+            pass
+        return {"name": self.name, "kind": "tv", "mismatches": mism, "states": tv["states"], "transitions": tv["states"], "traces": st.get("cases", 0),
+                "events": st.get("cases", 0), "samples": [{"logged_case": sample}], "wall": time.time() - t0}
+
+
+def gen_struct_groups(wd):
+    """TLC evaluates GenStruct: well-formed structures and their LF/CRLF renderings"""
+    cmd = vlib.java_cmd("2g", serial=False) + ["-workers", "1", "-metadir", os.path.join(wd, "mdgs"), "-cleanup", "-noGenerateSpecTE", "-config", "GenStruct.cfg", "GenStruct.tla"]
+    env = dict(os.environ)
+    env.pop("JAVA_TOOL_OPTIONS", None)
+    p = subprocess.run(cmd, cwd=vlib.SPEC, env=env, stdout=subprocess.PIPE, stderr=subprocess.STDOUT, text=True, timeout=600)
+    groups = {"fasta": [], "fastq": []}
+    for line in p.stdout.splitlines():
+        m = re.search(r'<<"GROUP", "(.*)">>\s*$', line)
+        if m:
+            j = json.loads(vlib.unescape_tla(m.group(1)))
+            groups[j["fmt"]].append(j["r"])
+    if not groups["fasta"] or not groups["fastq"]:
+        log(p.stdout[-2000:])
+        raise vlib.ToolError("GenStruct produced no groups")
+    return groups
+
+
+def crlf_suites(tier, wd):
+    g = gen_struct_groups(wd)
+    out = []
+    for fmt in ("fasta", "fastq"):
+        out.append(("genstruct-%s" % fmt, suite(fmt, {"groups": g[fmt]}, {"abs": [3, 4, 5, 7, 64]}, {"fixed": [NEXT, SET0]}, chunks=[[0]], pair="C12", slots=1, extra=1), 4))
+        out.append(("wellformed-%s" % fmt, suite(fmt, {"wf": {"n": q(tier, 400, 5000), "maxrec": 5, "maxfield": 6}}, {"abs": [3, 5, 16, 64], "rel": [-1]}, {"fixed": [NEXT, EXACT(2)]},
+                                                 chunks=[[0], [1]], pair="C12", slots=1, extra=1), 4))
+    return out
+
+
+def view_suites(fmt, tier):
+    fl = {"views": True}
+    alpha = FA if fmt == "fasta" else FQ
+    L = 5 if fmt == "fasta" else 6
+    return [
+        ("views-enum%d" % L, suite(fmt, enum(alpha, L), [3, 5, 64], {"fixed": [NEXT]}, chunks=[[0]], slots=1, extra=0, flags=fl, sample=(0 if fmt == "fasta" else 2)), 4),
+        ("views-struct", suite(fmt, rnd(q(tier, 1500, 20000), maxrec=4, maxfield=6, damage=10, anybyte=True), {"abs": [3, 7, 16, 64], "rel": [0]}, {"fixed": [NEXT]}, chunks=[[0], [2]],
+                               conf_sample=4, slots=1, extra=0, flags=fl), 4),
+        ("views-wellformed", suite(fmt, {"wf": {"n": q(tier, 300, 4000), "maxrec": 4, "maxfield": 8}}, {"abs": [3, 16, 64]}, {"fixed": [NEXT]}, chunks=[[0]], pair="C12", slots=1, extra=0, flags=fl), 4),
+    ]
+
+
+_old_build_jobs2 = build_jobs
+
+
+def build_jobs(prop, tier):
+    if prop == "C10":
+        return [McJob("wrapwriter", "WrapWriter", "WrapWriter_" + tier, ["C10"], workers=8, timeout=3600, xmx="6g"),
+                SimpleTvJob("writer", "writer", "TraceWriter", tier),
+                ReaderJob("c10views", view_suites("fasta", tier))]
+    if prop == "C11":
+        return [SimpleTvJob("writer", "writer", "TraceWriter", tier),
+                ReaderJob("c11views", view_suites("fastq", tier) + view_suites("fasta", tier))]
+    if prop == "C12":
+        class J:
+            name = "c12"
+
+            def run(self, wd):
+                return ReaderJob("c12", crlf_suites(tier, wd)).run(wd)
+        return [J()]
+    if prop == "C20":
+        return [McJob("seqlinesiter", "SeqLinesIter", "SeqLinesIter", ["C20"], workers=4, timeout=600, xmx="4g"),
+                SimpleTvJob("iters", "iters", "TraceIter", tier),
+                ReaderJob("c20owned", [("owned-iter-fused", suite("fasta", rnd(q(tier, 400, 4000), maxrec=4, maxfield=4, damage=30), [3, 8, 64], {"fixed": [ITER, INTO]}, chunks=[[0]], slots=1, extra=3), 2),
+                                       ("owned-iter-fused-fq", suite("fastq", rnd(q(tier, 400, 4000), maxrec=4, maxfield=4, damage=30), [3, 8, 64], {"fixed": [ITER, INTO]}, chunks=[[0]], slots=1, extra=3), 2)])]
+    return _old_build_jobs2(prop, tier)
